@@ -123,6 +123,9 @@ where
         items.extend(lin_eq_items(&format!("A_O{} = <aO,G> + rho*Bblind", tag), ao, &want_ao));
         job.check(&format!("S{} only involves this phase's generators and the blinding base", tag), s.keys().all(|k| s_allowed.contains(k)), String::new());
     }
+    // wide circuits (>= 64 gates in a phase): the openings of A_I / A_O / S and every freshness / single-use check;
+    // the convolution for the T_k and the published scalars is left to the small skeletons
+    let wide = shape.name.starts_with("wide_");
     // ---- polynomial commitments
     let fl = oracle::flatten(&sh.cons, n, m, vc.z);
     let aL: Vec<SymF<C::ScalarField>> = sh.gates.iter().map(|g| g.0).collect();
@@ -130,7 +133,7 @@ where
     let aO: Vec<SymF<C::ScalarField>> = sh.gates.iter().map(|g| g.2).collect();
     let sLf: Vec<SymF<C::ScalarField>> = sL.iter().map(|t| symf(*t)).collect();
     let sRf: Vec<SymF<C::ScalarField>> = sR.iter().map(|t| symf(*t)).collect();
-    let t = oracle::t_coeffs(&aL, &aR, &aO, &sLf, &sRf, &fl, vc.y);
+    let t = if wide { [SymF::<C::ScalarField>::zero(); 7] } else { oracle::t_coeffs(&aL, &aR, &aO, &sLf, &sRf, &fl, vc.y) };
     let mut tau: Vec<u32> = vec![];
     for (k, deg) in [1usize, 3, 4, 5, 6].iter().enumerate() {
         let lin = &lins[6 + k];
@@ -142,7 +145,9 @@ where
         if tt != lit0 {
             want.insert(b.B, tt);
         }
-        items.extend(lin_eq_items(&format!("T_{} = t_{}*B + tau*Bblind", deg, deg), lin, &want));
+        if !wide {
+            items.extend(lin_eq_items(&format!("T_{} = t_{}*B + tau*Bblind", deg, deg), lin, &want));
+        }
     }
     // ---- published scalars
     let x = vc.x;
@@ -152,7 +157,9 @@ where
         tx += t[deg] * xp;
         xp *= x;
     }
-    items.push(("t_x = sum_k t_k x^k".into(), scs[0].tid(), tx.tid()));
+    if !wide {
+        items.push(("t_x = sum_k t_k x^k".into(), scs[0].tid(), tx.tid()));
+    }
     let xs = [x, x * x * x, x * x * x * x, x * x * x * x * x, x * x * x * x * x * x];
     let mut txb = SymF::<C::ScalarField>::zero();
     for k in 0..5 {
@@ -311,6 +318,23 @@ pub fn c09_shapes(thorough: bool, seed: u64) -> Vec<Shape> {
         v.extend(crate::shapes::c01_shapes(true, seed).into_iter().filter(|s| !matches!(s.coef, Coef::Mixed(_))));
         // every call sequence with <= 3 first-phase and <= 2 second-phase calls
         v.extend(crate::shapes::exhaustive_skeletons(3, 2));
+    }
+    // wide phases (>= 64 gates): the masking vectors of a wide phase are still entry-by-entry draws of the transcript RNG
+    {
+        let mut p1 = vec![Commit];
+        p1.extend(vec![AllocMul; 64]);
+        p1.push(Con);
+        let mut w = Shape::new("wide_64_plus_1", &p1, &[&[Chal, AllocMul, Con]]);
+        w.lc_width = 3;
+        v.push(w);
+        if thorough {
+            let mut p2 = vec![Chal];
+            p2.extend(vec![AllocMul; 65]);
+            p2.push(Con);
+            let mut w = Shape::new("wide_64_plus_65", &p1, &[p2.as_slice()]);
+            w.lc_width = 3;
+            v.push(w);
+        }
     }
     v
 }
